@@ -31,14 +31,14 @@ ASSUMPTIONS = [
 ANCHORS = ["dagrt.language:CodeBuilder._add_statement", "dagrt.exec_numpy:NumpyInterpreter.run",
            "dagrt.exec_numpy:NumpyInterpreter.exec_Assign", "dagrt.codegen.python:CodeGenerator.__call__",
            "dagrt.codegen.dag_ast:create_ast_from_phase", "dagrt.codegen.expressions:PythonExpressionMapper.map_constant"]
-MIN_NONTRIVIAL = {"quick": 1500, "thorough": 18000}
+MIN_NONTRIVIAL = {"quick": 1500, "thorough": 75600}
 REQUIRED_COUNTERS = {"quick": ["events_compared", "step_snapshots_compared", "three_way_comparisons"],
                      "thorough": ["events_compared", "step_snapshots_compared", "three_way_comparisons"]}
 SHARD_TIMEOUT = {"quick": 900, "thorough": 3400}
 
 
 def plan(tier, seed):
-    per = 220 if tier == "quick" else 2500
+    per = 220 if tier == "quick" else 15000
     return [{"seed": f"C01:{seed}:{k}", "count": per} for k in range(16)]
 
 
